@@ -117,6 +117,7 @@ func (c *Ctx) Violate(sig, detail string, cs any) {
 // ---- registry ------------------------------------------------------------
 
 type Meta struct {
+	LongCases   bool     `json:"long_cases,omitempty"` // a case is a whole search partition: the per-case watchdog does not apply (the soft deadline does)
 	ID          string   `json:"id"`
 	Level       string   `json:"level"` // exploration | model_checking
 	Rule        string   `json:"rule"`
@@ -219,6 +220,13 @@ func Main(args []string) int {
 	case "bench":
 		Bench()
 		return 0
+	case "racepass":
+		rounds := 4
+		if len(args) > 1 {
+			fmt.Sscan(args[1], &rounds)
+		}
+		RacePass(rounds)
+		return 0
 	case "list":
 		ids := []string{}
 		for id := range registry {
@@ -303,7 +311,11 @@ func Main(args []string) int {
 				wmu.Lock()
 				idx, st := cur, curStart
 				wmu.Unlock()
-				if idx >= 0 && time.Now().Unix()-st > int64(WatchdogSeconds) {
+				limit := int64(WatchdogSeconds)
+				if def.meta.LongCases {
+					limit = 6 * 3600
+				}
+				if idx >= 0 && time.Now().Unix()-st > limit {
 					writeOut(out, c.snapshot(def.meta, shard, n, cases, idx, false, idx))
 					os.Exit(3)
 				}
